@@ -159,7 +159,7 @@ fn shape_honest_and_mutants<P: G>(cfg: Cfg, tier: Tier) -> Vec<Box<dyn Case>> {
             wit.promises[0] = Some(wit.values[0] / 2);
         }
         let built = build_cached::<P>(&cfg, &wit).honest();
-        let proof = lib_prove(&built, &CTX_A, &mut HRng::chacha(7)).honest();
+        let proof = lib_prove_honest(&built, &CTX_A, &mut HRng::chacha(7));
         let bytes = P::to_bytes(&proof);
         let rp = match refbp::ref_decode(&bytes) {
             Some(p) => p,
@@ -200,7 +200,7 @@ fn shape_coefficients_f(cfg: Cfg) -> Box<dyn Case> {
         let mut wit = Wit::default_for(&cfg);
         wit.promises[cfg.m - 1] = Some(wit.values[cfg.m - 1] / 3);
         let built = f_statement(&cfg, &wit);
-        let proof = lib_prove(&built, &CTX_A, &mut HRng::chacha(8)).honest();
+        let proof = lib_prove_honest(&built, &CTX_A, &mut HRng::chacha(8));
         let rp = ref_proof_of(&proof).expect("decodes");
         if rp.l.is_empty() {
             // zero-round proofs cannot go through from_bytes (C15 known finding); nothing to mark
@@ -462,7 +462,7 @@ fn shape_wrong_shape<P: G>(cfg: Cfg) -> Box<dyn Case> {
         let k = cfg.rounds();
         let wit = Wit::default_for(&cfg);
         let built = build_cached::<P>(&cfg, &wit).honest();
-        let proof = lib_prove(&built, &CTX_A, &mut HRng::chacha(9)).honest();
+        let proof = lib_prove_honest(&built, &CTX_A, &mut HRng::chacha(9));
         let rp = ref_proof_of(&proof).unwrap();
         let filler = built.params.h_base().g_compress();
         let mut round_counts: Vec<usize> = (1..=k + 2).filter(|x| *x != k).collect();
@@ -496,7 +496,7 @@ fn env_deviations<P: G>(cfg: Cfg) -> Box<dyn Case> {
         let mut res = CaseResult::new("explored");
         let wit = Wit::default_for(&cfg);
         let built = build_cached::<P>(&cfg, &wit).honest();
-        let proof = lib_prove(&built, &CTX_A, &mut HRng::chacha(10)).honest();
+        let proof = lib_prove_honest(&built, &CTX_A, &mut HRng::chacha(10));
         let draws = 3 + cfg.rounds();
         for i in 0..draws {
             // verifier
@@ -579,7 +579,7 @@ fn shape_batches<P: G>(cfg: Cfg) -> Box<dyn Case> {
                 }
             }
             let built = build_cached::<P>(&cfg, &wit).honest();
-            let proof = lib_prove(&built, &CTX_A, &mut HRng::chacha(70 + pos as u64)).honest();
+            let proof = lib_prove_honest(&built, &CTX_A, &mut HRng::chacha(70 + pos as u64));
             let rp = ref_proof_of(&proof).unwrap();
             let rst = ref_statement(&built.statement);
             for (_, sign, k) in &kinds {
@@ -602,8 +602,8 @@ fn shape_batches<P: G>(cfg: Cfg) -> Box<dyn Case> {
             let wit = Wit::default_for(&cfg);
             let built = build_cached::<P>(&cfg, &wit).honest();
             let other_ctx = contexts()[4];
-            let made_under_a = lib_prove(&built, &CTX_A, &mut HRng::chacha(72)).honest();
-            let honest_b = lib_prove(&built, &other_ctx, &mut HRng::chacha(73)).honest();
+            let made_under_a = lib_prove_honest(&built, &CTX_A, &mut HRng::chacha(72));
+            let honest_b = lib_prove_honest(&built, &other_ctx, &mut HRng::chacha(73));
             for (name, first_proof, first_ctx, second_proof, second_ctx, expect) in [
                 ("[honest@A, made-under-A-presented-with-B]", &made_under_a, CTX_A, &made_under_a, other_ctx, false),
                 ("[honest@A, honest@B]", &made_under_a, CTX_A, &honest_b, other_ctx, true),
@@ -684,10 +684,78 @@ fn shape_adaptive_f(d: usize) -> Box<dyn Case> {
     })
 }
 
+/// Shape (h): a false member anywhere in a batch beyond the chunk limit. Every member but one is an honest proof; the odd one
+/// has one response scalar off by one (invalid by the reference relation). Wherever it sits, the batch is refused.
+fn shape_long_batch<P: G>(len: usize) -> Box<dyn Case> {
+    case(format!("{}/long-batch/len={}/one-false-member", P::NAME, len), move |_v| {
+        fg::clear_intern();
+        let mut res = CaseResult::new("explored");
+        let cfg = Cfg::new(2, 1, 1, 1);
+        let mut sts = Vec::new();
+        let mut proofs = Vec::new();
+        let mut ctxs = Vec::new();
+        for pos in 0..len {
+            let mut wit = Wit::default_for(&cfg);
+            wit.values[0] = (pos % 4) as u64;
+            wit.blindings[0][0] = blinding(9000 + pos, 0);
+            let built = build_cached::<P>(&cfg, &wit).honest();
+            let ctx = contexts()[pos % 6];
+            proofs.push(lib_prove_honest(&built, &ctx, &mut HRng::chacha(pos as u64)));
+            sts.push(built.statement.clone());
+            ctxs.push(ctx);
+        }
+        let run = |proofs: &[tari_bulletproofs_plus::range_proof::RangeProof<P>], mode| {
+            let mut ts: Vec<merlin::Transcript> = ctxs.iter().map(|c| c.transcript()).collect();
+            verify_observed(&sts, proofs, &mut ts, mode)
+        };
+        if !run(&proofs, VerifyAction::VerifyOnly).is_ok() {
+            res.outcome = "all-honest-batch-not-accepted(skipped)".into();
+            return res;
+        }
+        let mut places = vec![0usize, 100, 255, 256, len - 1];
+        places.retain(|p| *p < len);
+        places.dedup();
+        for at in places {
+            let mut rp = match ref_proof_of(&proofs[at]) {
+                Some(rp) => rp,
+                None => continue,
+            };
+            rp.r1 += Scalar::ONE;
+            let rs = ref_statement(&sts[at]);
+            let mut t = ctxs[at].transcript();
+            let verdict = refbp::ref_verify(&mut t, &rs, &rp).verdict;
+            if !matches!(verdict, RefVerdict::Reject) {
+                res.binding_note(format!("at={}", at), "the reference relation does not reject r1+1");
+                continue;
+            }
+            let bad = match P::from_bytes(&refbp::ref_encode(&rp)) {
+                Ok(p) => p,
+                Err(_) => continue,
+            };
+            let mut ps: Vec<_> = proofs.iter().map(|p| P::proof_clone(p)).collect();
+            ps[at] = bad;
+            for mode in [VerifyAction::VerifyOnly, VerifyAction::RecoverAndVerify] {
+                res.transitions += 1;
+                res.executions += 1;
+                res.validated += 1;
+                let obs = run(&ps, mode);
+                *res.outcome_counter(if obs.is_ok() { "lib-accept" } else { "lib-reject" }) += 1;
+                if obs.is_ok() {
+                    res.violate(
+                        format!("false-member-at-{}/{}", at, mode_name(mode)),
+                        format!("a batch of {} whose member {} does not satisfy the relation (r1+1) was accepted: {}", len, at, obs.describe()),
+                    );
+                }
+            }
+        }
+        res
+    })
+}
+
 pub fn run(rep: &mut Report) {
     rep.rule = "configuration lattice x proof shapes {honest, every single mutation of the wire form, generic (symbolic) proofs x \
                 response-scalar alphabet x promise alphabet, dishonest-witness proofs from the reference prover (v-p in {-1,2^n,2^n+1}, \
-                one non-bit digit at each position), wrong round counts / degrees, 2-member batches over {honest, d1[k]+/-delta (cancel under equal weights), r1+1}^2} x environment deviations {zero challenge at each \
+                one non-bit digit at each position), wrong round counts / degrees, batches of 257 / 513 with one false member at 0, 100, 255, 256 and last, 2-member batches over {honest, d1[k]+/-delta (cancel under equal weights), r1+1}^2} x environment deviations {zero challenge at each \
                 draw, identity at each commitment generator}; oracle = verdict equality with the reference relation and (over F) \
                 equality of the compared element with weight x reference linear form as a coefficient vector"
         .into();
@@ -719,6 +787,10 @@ pub fn run(rep: &mut Report) {
     }
     for d in [1usize, 2, 6] {
         cases.push(shape_adaptive_f(d));
+    }
+    for len in if tier.thorough() { vec![257usize, 513, 600] } else { vec![257usize, 513] } {
+        cases.push(shape_long_batch::<F>(len));
+        cases.push(shape_long_batch::<RistrettoPoint>(len));
     }
     rep.explore("C02", cases);
     rep.expect_sub_outcome("lib-accept");
